@@ -27,15 +27,19 @@ MVal(S, t, n) ==       \* a value of type t whose leaves are markers n, n+1, ...
     [] r.k = "ref" /\ r.n = "Inner" -> St(<< F("x", I(MkInt(n))), F("s", Str(MkStr(n + 1))) >>)
 
 AField(id, name, t, req, ann) == [id |-> id, name |-> name, t |-> t, req |-> req, def |-> NoDef, ann |-> ann]
+\* the spelling of the annotations varies with requiredness and kind, so that every shape meets every spelling
+RSpell(req, kind) == IF req THEN (IF kind = "struct" THEN "go.redact" ELSE "go.redact = \"yes\"")
+                     ELSE (IF kind = "struct" THEN "go.redact = \"false\"" ELSE "go.redact = \"\"")
+NSpell(req, kind) == IF req THEN "go.nolog" ELSE (IF kind = "struct" THEN "go.nolog = \"false\"" ELSE "go.nolog = \"no\"")
 SecDef(sh, req, kind) == [name |-> "Sec", kind |-> kind, items |-> <<>>, target |-> B("i32"),
-   fields |-> << AField(1, "secret", sh, req, "go.redact"), AField(2, "plain", B("string"), FALSE, ""), AField(3, "quiet", sh, FALSE, "go.nolog"),
+   fields |-> << AField(1, "secret", sh, req, RSpell(req, kind)), AField(2, "plain", B("string"), FALSE, ""), AField(3, "quiet", sh, FALSE, NSpell(req, kind)),
                AField(4, "hushed", sh, FALSE, Both), AField(5, "after", B("string"), FALSE, "") >>]   \* a plain field declared after the unlogged ones
 HoldDef == [name |-> "Hold", kind |-> "struct", items |-> <<>>, target |-> B("i32"),
    fields |-> << AField(1, "direct", Ref("Sec"), FALSE, ""), AField(2, "inList", ListOf(Ref("Sec")), FALSE, ""),
                  AField(3, "inMapVal", MapOf(B("string"), Ref("Sec")), FALSE, ""), AField(4, "inMapKey", MapOf(Ref("Sec"), B("string")), FALSE, ""),
                  AField(5, "viaTypedef", Ref("SecAlias"), FALSE, ""), AField(6, "viaTdList", Ref("SecList"), FALSE, ""),
                  AField(7, "inSet", SetOf(Ref("Sec")), FALSE, ""),
-                 AField(8, "topSecret", B("string"), FALSE, "go.redact"), AField(9, "topQuiet", B("i32"), FALSE, "go.nolog"),
+                 AField(8, "topSecret", B("string"), FALSE, "go.redact = \"0\""), AField(9, "topQuiet", B("i32"), FALSE, "go.nolog = \"false\""),
                  AField(10, "topAfter", B("string"), FALSE, "") >>]
 SchemaFor(sh, req, kind) == Support \o << SecDef(sh, req, kind), Td("SecAlias", Ref("Sec")), Td("SecList", ListOf(Ref("Sec"))), HoldDef >>
 
